@@ -219,6 +219,16 @@ class Hinted:
         self.goal, self.lemmas, self.defs = goal, list(lemmas), list(defs)
 
 
+class Scoped:
+    """a goal proved from a slice of the hypotheses: tagged hypotheses (precondition clauses `pre.<name>`, loop
+    invariant clauses `inv<k>.<name>`, callee postconditions `call.<callee>.<name>`, earlier clauses of the same
+    conjunction `acc.<name>`) are kept only when they match `keep` (fnmatch patterns); untagged path conditions
+    are always kept.  Dropping hypotheses is always sound; it keeps solver queries small and stable."""
+
+    def __init__(self, goal, keep):
+        self.goal, self.keep = goal, list(keep)
+
+
 class SumFn:
     def __init__(self, f, body, arity, lo_hint=None):
         self.f = f            # z3 Function(Int lo, Int hi, *params) -> Real
@@ -302,6 +312,34 @@ class Ctx:
             return self.values[name]
         return self.fixed[name]
 
+    def constant(self, name):
+        """physical constant of taurex.constants (values come from astropy): symbolic and positive in proofs
+        (so everything proved holds for any positive value), the real number when replaying"""
+        if self.mode == 'conc':
+            import importlib
+            return float(getattr(importlib.import_module('taurex.constants'), name))
+        k = z3.Real('K_' + name)
+        if name not in self.uf:
+            self.uf[name] = k
+            self.assumed.append(k > 0)
+            if name == 'PI':
+                self.assumed.append(z3.And(k > z3.RealVal('3.14159'), k < z3.RealVal('3.1416')))
+        return k
+
+    def unitfactor(self, a, b):
+        """astropy conversion factor a -> b: an unknown positive constant per unit pair (1 for equal units) in
+        proofs, the real number when replaying"""
+        if self.mode == 'conc':
+            import importlib
+            return float(importlib.import_module('taurex.util.util').conversion_factor(a, b))
+        if a == b:
+            return z3.RealVal(1)
+        k = z3.Real('cf_%s_%s' % (a, b))
+        if ('cf', a, b) not in self.uf:
+            self.uf[('cf', a, b)] = k
+            self.assumed.append(k > 0)
+        return k
+
     def func(self, name, *sorts):
         """named uninterpreted spec function (e.g. an abstract cross-section table)"""
         if self.mode == 'conc':
@@ -347,8 +385,27 @@ class Ctx:
         a, b = _unify(a, b)
         return z3.If(cnd, a, b)
 
-    def Eq(self, a, b):
+    def IsNan(self, a):
+        if type(a).__name__ == 'NanRef':
+            return True
+        if is_sym(a):
+            return False
+        try:
+            return bool(a != a)
+        except (TypeError, ValueError):
+            return False
+
+    def Eq(self, a, b, scale=None):
+        """equality; when replaying on floats: |a-b| <= TOL*max(|a|,|b|,scale).  `scale` is the magnitude of the
+        terms that cancel in a or b (a difference of large numbers is only accurate relative to them)"""
+        if type(a).__name__ == 'NanRef' or type(b).__name__ == 'NanRef':
+            return False
         if self.mode == 'conc' or not (is_sym(a) or is_sym(b)):
+            if scale is not None and not isinstance(a, (bool, str)) and a is not None:
+                try:
+                    return abs(a - b) <= self.TOL * max(abs(a), abs(b), abs(scale))
+                except TypeError:
+                    pass
             return _close(a, b, self.TOL)
         a, b = _unify(a, b)
         return a == b
@@ -418,6 +475,22 @@ class Ctx:
         if not is_sym(body):
             return True if body else z3.ForAll([i, j], z3.Not(rng))
         return z3.ForAll([i, j], z3.Implies(rng, body))
+
+    def ForallAdj(self, lo, hi, f):
+        """for all q with lo <= q < hi:  f(q, q+1).  In 'sym' mode the successor is a second bound variable
+        tied by r == q+1, so instantiation needs BOTH terms to exist already: no matching loop (an adjacent
+        fact written with f(q+1) under a pattern on f(q) creates f(q+1), f(q+2), ... for ever)."""
+        clo, chi = conc_int(lo), conc_int(hi)
+        if self.mode == 'conc' or (clo is not None and chi is not None and chi - clo <= 64):
+            return self.And(*[f(k, k + 1) for k in range(clo, chi)])
+        q, r = self.fresh('q'), self.fresh('r')
+        self.qvars.extend([q, r])
+        try:
+            body = f(q, r)
+        finally:
+            self.qvars.pop()
+            self.qvars.pop()
+        return z3.ForAll([q, r], z3.Implies(z3.And(to_int(lo) <= q, q < to_int(hi), r == q + 1), body))
 
     def ForallInt(self, f):
         """for all integers k (no range) -- sym only; used for frame clauses"""
@@ -528,6 +601,11 @@ class Ctx:
         if isinstance(o, Hinted):
             return Hinted(self.Implies(rng, o.goal), [self.Implies(rng, l) for l in o.lemmas], o.defs)
         return self.Implies(rng, o)
+
+    def scope(self, goal, *keep):
+        if self.mode != 'sym':
+            return goal          # bounded instances keep every hypothesis so that models are valid inputs
+        return Scoped(goal, keep)
 
     def hint(self, goal, *lemmas, defs=()):
         if self.mode == 'conc':
